@@ -97,7 +97,9 @@ PointTable == [
   \* ---- table-level reader/writers (parser_v2.py)
   v2_parse          |-> P("parser_v2.py:12/142 parse_pdb_atoms/parse_cif_atoms: DataFrame rows in file order", <<>>, "list", FALSE),
   v2_write_pdb      |-> P("parser_v2.py:807-990 write_pdb: df.iterrows()", <<"v2_parse">>, "list", TRUE),
-  v2_write_cif      |-> P("parser_v2.py:993-1127 write_cif: attributes = list(df.columns)", <<"v2_parse">>, "list", TRUE)
+  v2_write_cif      |-> P("parser_v2.py:993-1127 write_cif: attributes = list(df.columns)", <<"v2_parse">>, "list", TRUE),
+  v2_fit            |-> P("parser_v2.py:492-561 fit_to_pdb: new chain ids handed out over df[chain].unique() (first appearance), residues by drop_duplicates, serials by iterrows", <<"v2_parse">>, "list", FALSE),
+  v2_fit_write_pdb  |-> P("parser_v2.py write_pdb(fit_to_pdb(df)): the PDB text of a table that had to be fitted", <<"v2_fit">>, "list", TRUE)
 ]
 
 Points == DOMAIN PointTable
@@ -111,7 +113,8 @@ Order == << "read_atoms", "clash_filter", "residues", "hbond_pairs", "bph_br_gre
             "elements", "adb_graph", "adb_components", "adb_unique", "all_dot_brackets", "map_dot_bracket",
             "map_all_dot_brackets", "inter_stem", "structure2d", "cli_json", "cli_csv", "cli_bpseq",
             "cli_stdout", "cli_stdout_extended", "cli_stdout_all", "cli_graphviz", "cli_pml",
-            "cli_inter_stem_csv", "cli_stems_csv", "v2_parse", "v2_write_pdb", "v2_write_cif" >>
+            "cli_inter_stem_csv", "cli_stems_csv", "v2_parse", "v2_write_pdb", "v2_write_cif", "v2_fit",
+            "v2_fit_write_pdb" >>
 
 SeqToSet(s) == { s[k] : k \in 1..Len(s) }
 PosIn(p) == CHOOSE k \in 1..Len(Order) : Order[k] = p
